@@ -18,7 +18,7 @@ from __future__ import annotations
 import z3
 
 from .npmodel import SORTS, ArrObj, NumpyModel, _arr, _conv, _is_arr, _scalar, arr_sort, np_exp, np_log
-from .values import BuiltinV, Ref, SV, TBool, TInt, TReal, Unsupported, forall_pat
+from .values import BuiltinV, Ref, SV, TBool, TInt, TReal, Unsupported, forall_pat, is_concrete
 
 _NP = NumpyModel()
 UFUNC_OPS = {"numpy.add": "Add", "numpy.subtract": "Sub", "numpy.multiply": "Mult", "numpy.divide": "Div", "numpy.true_divide": "Div"}
@@ -68,6 +68,11 @@ def _vsum(ex, A):
 
 def _precise(ex):
     return getattr(ex.contract, "numpy", "opaque") == "precise"
+
+
+class _StrEnumNS:
+    def __init__(self, members):
+        self.members = members
 
 
 class NpC10Models:
@@ -139,6 +144,18 @@ class NpC10Models:
             psum = psum_fn("f")
             k = z3.Int("k!mv")
             return _NP.new(ex, "f", (A.shape[0],), _NP.lam(1, lambda i: psum(z3.Lambda([k], A.at(i, k) * B.elems[k]), A.shape[1])))
+        if A.rank == 1 and B.rank == 1 and A.kind == "f" and B.kind == "f":  # dot product of two vectors: a number
+            if not _NP.same(ex, A.shape[0], B.shape[0], lineno):
+                raise PyRaise("ValueError", lineno)
+            _assume_psum(ex)
+            k = z3.Int("k!mv")
+            return SV(psum_fn("f")(z3.Lambda([k], A.elems[k] * B.elems[k]), A.shape[0]), TReal)
+        if A.rank == 1 and B.rank == 2 and A.kind == "f" and B.kind == "f":  # row vector times matrix
+            if not _NP.same(ex, A.shape[0], B.shape[0], lineno):
+                raise PyRaise("ValueError", lineno)
+            _assume_psum(ex)
+            k = z3.Int("k!mv")
+            return _NP.new(ex, "f", (B.shape[1],), _NP.lam(1, lambda j: psum_fn("f")(z3.Lambda([k], A.elems[k] * B.at(k, j)), A.shape[0])))
         return NotImplemented
 
     def isinstance_(self, ex, v, cls):
@@ -173,9 +190,46 @@ class NpC10Models:
             return a.name == b.name
         return NotImplemented
 
+    # ------------------------------------------------------------------ MDOFunction.FunctionType (a StrEnum: its members are their string values)
+    def class_constant(self, ex, ci, name):
+        if name == "FunctionType" and ci.qualname.endswith("mdo_function.MDOFunction") and getattr(ex.contract, "function_type_enum", False):
+            return _StrEnumNS({"OBJ": "obj", "OBS": "obs", "NONE": "", "EQ": "eq", "INEQ": "ineq"})
+        return NotImplemented
+
+    def value_attr(self, ex, obj, attr, lineno):
+        if isinstance(obj, _StrEnumNS):
+            if attr in obj.members:
+                return obj.members[attr]
+            raise Unsupported(f"enum member {attr}")
+        return NotImplemented
+
+    def contains(self, ex, cont, item, lineno):
+        """``x in v`` for a number and a vector: some element equals it."""
+        if not (_precise(ex) and _is_arr(ex, cont) and _arr(ex, cont).rank == 1 and ex.num(item) is not None and _arr(ex, cont).kind != "b"):
+            return NotImplemented
+        A = _arr(ex, cont)
+        t, ty = ex.num(item)
+        tq = z3.Int("t!in")
+        if A.kind == "f" and ty == TInt:
+            t = z3.ToReal(t)
+        elif A.kind == "i" and ty == TReal:
+            return NotImplemented
+        return SV(z3.Exists([tq], z3.And(0 <= tq, tq < A.shape[0], A.elems[tq] == t)), TBool)
+
     # ------------------------------------------------------------------ indexing
     def getitem(self, ex, cont, key, lineno):
         """``v[:, newaxis]`` of a vector: the (m, 1) column (numpy returns a view; modelled as a copy - no later in-place write in the verified code)."""
+        if ex.no_fork and getattr(ex.contract, "comprehension_list_index", False) and isinstance(cont, Ref) and ex.num(key) is not None \
+                and ex.num(key)[1] == TInt and not is_concrete(key):
+            from .values import ListObj
+
+            L = ex.st.heap.get(cont.id)
+            if isinstance(L, ListObj) and not L.is_empty_literal:
+                # names[i] inside a comprehension element (no forking possible there): 0 <= i < len is a generated obligation
+                # (the bound variable of the comprehension is a Skolem constant of the element term: the obligation is stated for every position)
+                i = ex.num(key)[0]
+                ex.check(z3.And(0 <= i, i < L.n), "safety", "comprehension-list-index-in-range", lineno, aux=True, assume_after=False)
+                return L.t.project(ex.st, L.elems[i])
         if not (_precise(ex) and _is_arr(ex, cont)):
             return NotImplemented
         A = _arr(ex, cont)
@@ -205,6 +259,16 @@ class NpC10Models:
             r = _NP.call_method(ex, recv, name, args, kwargs, lineno)
             ex.st.ghost.setdefault("nonzero_of", {})[_arr(ex, r[0]).elems.get_id()] = (recv, A.elems.get_id())
             return r
+        if name == "np.reshape" and A.rank == 1 and not kwargs and _precise(ex):
+            shp = args[0] if len(args) == 1 and isinstance(args[0], tuple) else tuple(args)
+            if len(shp) == 2 and shp[0] == 1 and shp[1] == -1:
+                # v.reshape((1, -1)): the (1, n) row (numpy returns a view: written through when the contract opts in `np_views`)
+                r = _NP.new(ex, A.kind, (z3.IntVal(1), A.shape[0]), _NP.lam(2, lambda i, j: A.elems[j]))
+                if getattr(ex.contract, "np_views", False):
+                    ex.st.ghost.setdefault("row_views", {})[r.id] = recv
+                else:
+                    ex.assumed.add("v.reshape((1, -1)): a (1, n) copy (numpy returns a view; no later in-place write to it in the verified code)")
+                return r
         if name == "np.flatten" and not args and not kwargs:
             if A.rank == 1:
                 return _NP.new(ex, A.kind, A.shape, A.elems)
